@@ -49,6 +49,8 @@ def gen_case(seed: int, prop: str, tier: str) -> dict:
     elif kind in ("envelope", "cli"):
         case["aad"] = rng.choice([True, True, False])
         case["output_exists"] = rng.random() < 0.3
+        # how the CLI is invoked: the documented form, or with the output option left out / other spellings
+        case["argv"] = rng.choice(["full", "full", "full", "no_output", "no_keystore", "only_envelope", "long_opts", "envelope_no_ext"])
     elif kind == "hyperv":
         case["name"] = rng.choice(["test.vmcx", "test.VMRS"])
     else:
@@ -275,18 +277,34 @@ def run_case(case: dict) -> RunResult:
             if case["output_exists"]:
                 world.fs.add(out, SimFile())
             if kind == "cli":
-                world.fs.declared_outputs.add(out)
+                mode = case.get("argv", "full")
+                envp = d + "/local.tgz.ve"
+                if mode == "envelope_no_ext":
+                    envp = d + "/exhibit_0042"
+                    world.fs.add(envp, world.fs.files[d + "/local.tgz.ve"])
+                    world.fs.add(d + "/local.tgz", SimFile())  # a sibling a careless default output name would clobber
+                args = {"full": [envp, "-ks", d + "/encryption.info", "-o", out],
+                        "long_opts": [envp, "--keystore", d + "/encryption.info", "--output", out],
+                        "no_output": [envp, "-ks", d + "/encryption.info"],
+                        "envelope_no_ext": [envp, "-ks", d + "/encryption.info"],
+                        "no_keystore": [envp, "-o", out],
+                        "only_envelope": [envp]}[mode]
+                if "-o" in args or "--output" in args:
+                    world.fs.declared_outputs.add(out)
 
                 def w_cli():
+                    import contextlib
+
                     from dissect.hypervisor.tools import envelope as tool
 
                     argv = sys.argv
-                    sys.argv = ["envelope-decrypt", d + "/local.tgz.ve", "-ks", d + "/encryption.info", "-o", out]
+                    sys.argv = ["envelope-decrypt"] + args
                     try:
-                        try:
-                            tool.main()
-                        except SystemExit:
-                            pass
+                        with contextlib.redirect_stderr(io.StringIO()), contextlib.redirect_stdout(io.StringIO()):
+                            try:
+                                tool.main()
+                            except SystemExit:
+                                pass
                     finally:
                         sys.argv = argv
 
@@ -499,3 +517,9 @@ def evidence_extra():
 
 
 SHRINK_LISTS = ["faults"]
+
+
+def warm_process():
+    from hvsim.engines import monitor as _m
+
+    _m.warm()
